@@ -225,9 +225,16 @@ UnitsPtr Model::takeUnits(const std::string &name)
 bool Model::replaceUnits(size_t index, const UnitsPtr &units)
 {
     bool status = false;
-    if (removeUnits(index)) {
+    if ((units != nullptr) && (index < pFunc()->mUnits.size())) {
+        // The replacement moves here: it leaves its previous owner.
+        auto thisModel = shared_from_this();
+        auto previousOwner = std::dynamic_pointer_cast<Model>(units->parent());
+        if ((previousOwner != nullptr) && (previousOwner != thisModel)) {
+            previousOwner->removeUnits(units);
+        }
+        removeUnits(index);
         pFunc()->mUnits.insert(pFunc()->mUnits.begin() + ptrdiff_t(index), units);
-        units->pFunc()->setParent(shared_from_this());
+        units->pFunc()->setParent(thisModel);
         status = true;
     }
 
